@@ -430,6 +430,27 @@ func checkPrepareFds(c *Check, call *ssa.Call) {
 			}
 		}
 	}
+	// second form: cursor = max(cursor, int(elem)) with signed operands
+	for _, e := range phi.Edges {
+		if call, ok := stripConv(e).(*ssa.Call); ok {
+			if bi, ok := call.Call.Value.(*ssa.Builtin); ok && bi.Name() == "max" && len(call.Call.Args) == 2 {
+				hasCur, other := false, ssa.Value(nil)
+				for _, a := range call.Call.Args {
+					if stripConv(a) == ssa.Value(phi) {
+						hasCur = true
+					} else {
+						other = a
+					}
+				}
+				if hasCur && other != nil {
+					raised = true
+					if bt, ok := call.Type().Underlying().(*types.Basic); ok && bt.Info()&types.IsUnsigned == 0 {
+						signed = true
+					}
+				}
+			}
+		}
+	}
 	c.Cond(raised, "3/scratch-base", key+":cursor-raised", pos, "cursor is raised to every list entry above it", "cursor is not raised to the list entries: a scratch slot could collide with a listed descriptor")
 	c.Cond(signed, "3/scratch-base", key+":signed-compare", pos, "the comparison is signed, so the close marker (-1) never raises the cursor", "the comparison is unsigned: the close marker (all ones) becomes the maximum and the cursor wraps to 0")
 	// every element is copied (store into the fresh slice inside the loop, unconditionally)
